@@ -4,6 +4,9 @@ import MidnightZK.Model.C12.Booth
 import MidnightZK.Model.C12.Msm
 import MidnightZK.Model.C12.Curve
 import MidnightZK.Model.C12.Zn
+import MidnightZK.Model.C12.Fft
+import MidnightZK.Model.C12.Poly
+import MidnightZK.Gen.C12Consts
 /-! Line-protocol handler of property C12. -/
 namespace MidnightZK.C12.Driver
 open MidnightZK MidnightZK.C12
@@ -37,8 +40,112 @@ def runMsm (cp : CurveP) (entry : String) (t acc0 nbytes : Nat) (pairs : List (N
   | "specific-best" => if t = 0 then none else some (msmSpecific (msmBest t numBits) coeffs bases)
   | _ => none
 
+/-- The BLS12-381 scalar field, constants from the generated file. -/
+abbrev Fr := Zn Gen.frModulus
+def fr (n : Nat) : Fr := Zn.ofNat Gen.frModulus n
+def frInv (a : Fr) : Fr := ⟨invMod a.val Gen.frModulus⟩
+def frPow (a : Fr) (e : Nat) : Fr := ⟨powMod a.val e Gen.frModulus⟩
+def frConsts : FieldConsts Fr := { S := Gen.frS, rootOfUnity := fr Gen.rootOfUnity, zeta := fr Gen.zeta }
+def frList (l : List Nat) : List Fr := l.map fr
+def fmtFr (l : List Fr) : String := fmtHexList (l.map (·.val))
+def fmtFrOpt (l : Option (List Fr)) : String :=
+  match l with
+  | some l => fmtFr l
+  | none => "panic"
+def frDomain (j k : Nat) : Option (Domain Fr) := Domain.new frConsts frInv fr frPow j k
+
+def domainOp (op : String) (t : Nat) (d : Domain Fr) (vals : List Fr) : Option (Option (List Fr)) :=
+  match op with
+  | "l2c" => some (d.lagrangeToCoeff t vals)
+  | "c2l" => some (d.coeffToLagrange t vals)
+  | "c2e" => some (d.coeffToExtended t vals)
+  | "e2c" => some (d.extendedToCoeff t vals)
+  | "e2l" => some (d.extendedToLagrange t vals)
+  | "divvanish" => some (d.divideByVanishingPoly vals)
+  | _ => none
+
 def answer (line : String) : String :=
   match words line with
+  | ["fft", t, logn, omega, vals] =>
+    match t.toNat?, logn.toNat?, parseNat? omega, parseNatList? vals with
+    | some t, some logn, some omega, some vals =>
+      if t = 0 then "bad-op" else fmtFrOpt (bestFft t (frList vals) (fr omega) logn)
+    | _, _, _, _ => "bad-op"
+  | ["evalpoly", t, x, coeffs] =>
+    match t.toNat?, parseNat? x, parseNatList? coeffs with
+    | some t, some x, some coeffs =>
+      if t = 0 then "bad-op" else toHex (evalPolynomial t (frList coeffs) (fr x)).val
+    | _, _, _ => "bad-op"
+  | ["kate", b, coeffs] =>
+    match parseNat? b, parseNatList? coeffs with
+    | some b, some coeffs => fmtFrOpt (kateDivision (frList coeffs) (fr b))
+    | _, _ => "bad-op"
+  | ["interp", xs, ys] =>
+    match parseNatList? xs, parseNatList? ys with
+    | some xs, some ys => fmtFrOpt (lagrangeInterpolate frInv (frList xs) (frList ys))
+    | _, _ => "bad-op"
+  | ["polyrot", r, vals] =>
+    match parseInt? r, parseNatList? vals with
+    | some r, some vals => fmtFrOpt (polyRotate (frList vals) r)
+    | _, _ => "bad-op"
+  | ["dominfo", j, k] =>
+    match j.toNat?, k.toNat? with
+    | some j, some k =>
+      match frDomain j k with
+      | some d => s!"{d.n} {d.k} {d.extendedK} {d.quotientPolyDegree} {toHex d.omega.val} {toHex d.omegaInv.val} {toHex d.extendedOmega.val}"
+      | none => "panic"
+    | _, _ => "bad-op"
+  | ["dom", op, t, j, k, vals] =>
+    match t.toNat?, j.toNat?, k.toNat?, parseNatList? vals with
+    | some t, some j, some k, some vals =>
+      if t = 0 then "bad-op" else
+      match frDomain j k with
+      | some d =>
+        match domainOp op t d (frList vals) with
+        | some r => fmtFrOpt r
+        | none => "bad-op"
+      | none => "panic"
+    | _, _, _, _ => "bad-op"
+  | ["domrot", j, k, value, r] =>
+    match j.toNat?, k.toNat?, parseNat? value, parseInt? r with
+    | some j, some k, some value, some r =>
+      match frDomain j k with
+      | some d => toHex (d.rotateOmega frPow (fr value) r).val
+      | none => "panic"
+    | _, _, _, _ => "bad-op"
+  | ["domli", j, k, x, xn, rots] =>
+    match j.toNat?, k.toNat?, parseNat? x, parseNat? xn, parseIntList? rots with
+    | some j, some k, some x, some xn, some rots =>
+      match frDomain j k with
+      | some d => fmtFr (d.lIRange frInv frPow (fr x) (fr xn) rots)
+      | none => "panic"
+    | _, _, _, _, _ => "bad-op"
+  | ["g2l", t, k, logs] =>
+    match t.toNat?, k.toNat?, parseNatList? logs with
+    | some t, some k, some logs =>
+      if t = 0 then "bad-op" else
+      match gToLagrange frConsts t (fr Gen.twoInv) (fr Gen.rootOfUnityInv) frPow (frList logs) k with
+      | some l => " ".intercalate (l.map (fun e => fmtAffine (toAffine bls12381G1.p (bls12381G1.mulGen e.val))))
+      | none => "panic"
+    | _, _, _ => "bad-op"
+  | ["commit", s, coeffs] =>
+    -- `KZGCommitmentScheme::commit`: Σ coeffᵢ·[sⁱ]G
+    match parseNat? s, parseNatList? coeffs with
+    | some s, some coeffs =>
+      fmtAffine (toAffine bls12381G1.p (bls12381G1.mulGen (horner (frList coeffs) (fr s)).val))
+    | _, _ => "bad-op"
+  | ["commitlag", t, k, s, evals] =>
+    -- `commit_lagrange`: Σ evalᵢ·[lᵢ(s)]G, i.e. the commitment to the interpolating polynomial
+    match t.toNat?, k.toNat?, parseNat? s, parseNatList? evals with
+    | some t, some k, some s, some evals =>
+      if t = 0 then "bad-op" else
+      match frDomain 1 k with
+      | some d =>
+        match d.lagrangeToCoeff t (frList evals) with
+        | some c => fmtAffine (toAffine bls12381G1.p (bls12381G1.mulGen (horner c (fr s)).val))
+        | none => "panic"
+      | none => "panic"
+    | _, _, _, _ => "bad-op"
   | ["chunks", len, t] =>
     match len.toNat?, t.toNat? with
     | some len, some t =>
@@ -59,6 +166,9 @@ def answer (line : String) : String :=
     match curveOf c with
     | some cp => fmtAffine (toAffine cp.p cp.gen) ++ (if onCurve cp cp.gx cp.gy then " on" else " off")
     | none => "bad-op"
+  | ["msm", "bls", "multiexp-empty", _, _, _, "-"] =>
+    -- `G1Projective::multi_exp(&[], &[])`: the blst binding indexes `points[0]`
+    "panic"
   | ["msm", c, entry, t, acc0, nbytes, pairs] =>
     match curveOf c, t.toNat?, parseNat? acc0, nbytes.toNat?, parsePairs pairs with
     | some cp, some t, some acc0, some nbytes, some pairs =>
